@@ -68,4 +68,19 @@ PROPS = {
         "level_note": "Trusted: Coq kernel + vm_compute; hand model vs code tied by differential testing only; crawdad prefix search modelled at list level; connection costs taken from the implementation through the conn_cost hook; costs in Z with i32 overflow = Panicked (the property's own 32-bit restriction).",
         "technique": "machine-checked proof in Coq (Viterbi invariant over all insertion sequences) + checked model/code correspondence on lattice dumps",
     },
+    "C04": {
+        "theorems": ["c04_state_independent", "c04_history", "c04_idempotent", "c04_interleave"],
+        "check_targets": ["Check/C04Check.vo"],
+        "case_type": "tokcase",
+        "report_fn": "c04_report",
+        "n": {"quick": 700, "thorough": 15000},
+        "rule": TOK_RULE + "; C04: 1-9 sentences per worker (repeated sentences, empty first line), each also tokenized on a brand-new worker and on 3 further threads (own worker each, shared tokenizer, three rounds in thread-specific orders); non-trivial: at least two non-empty tokenized sentences on the one reused worker, each with alternative observations to compare",
+        "trusted_base": TOK_TRUSTED + [
+            "thread schedules, Send/Sync and memory effects are outside the model: Tokenizer/Dictionary: Send + Sync is asserted at compile time in the harness (a change that breaks it stops the harness from building => VIOLATION), the threaded run is a test supporting the tie, not a proof",
+        ],
+        "assumptions": ["workers are used through reset_sentence/tokenize/token accessors (the public API)"],
+        "level_text": "Coq theorems c04_state_independent / c04_history / c04_idempotent / c04_interleave: in the model of worker.rs + lattice.rs, for EVERY worker state (not only reachable ones) reset_sentence(cs); tokenize() gives the outcome and token nodes of a fresh worker (the lattice vector kept between sentences is erased by reset up to the relation 'same node list at every boundary', which every model operation respects), repeated tokenize calls report the same tokens, and under any interleaving of the operations of a family of workers each worker ends in the state its own operation list produces. Tied to the code on every run: real workers with generated histories (abandoned resets, empty sentences, double/triple tokenize) are compared with the model on a fresh worker, and the oracle compares the real reused worker with a real fresh worker and with workers on three other threads.",
+        "level_note": "Partial with respect to real concurrency: thread interleavings/memory effects cannot be exhibited by the Gallina model; covered by a compile-time Send+Sync assertion and a threaded differential run only. Otherwise trusted: Coq kernel + vm_compute, hand model tied by differential testing, crawdad modelled at list level.",
+        "technique": "machine-checked proof in Coq (state-independence of reset+tokenize for all worker states, projection lemma for interleavings) + checked model/code correspondence on operation histories",
+    },
 }
